@@ -310,8 +310,15 @@ func c06Attestations(n int) {
 	}
 	blockRoot, sourceRoot, targetRoot := phase0.Root(vnd.Root("block")), phase0.Root(vnd.Root("source")), phase0.Root(vnd.Root("target"))
 	sourceEpoch, targetEpoch := phase0.Epoch(vnd.U64("source.epoch")), phase0.Epoch(vnd.U64("target.epoch"))
+	// what was asked for, kept apart from the slices handed to the signer: the expectations below are
+	// computed from this record (the i-th message is the i-th message of the request as it was made)
+	asked := make([]phase0.CommitteeIndex, n)
+	copy(asked, comms)
+	askedAccs := make([]e2wtypes.Account, n)
+	copy(askedAccs, accs)
 	sigs, err := s.SignBeaconAttestations(context.Background(), accs, slot, comms, blockRoot, sourceEpoch, sourceRoot, targetEpoch, targetRoot)
 	vnd.Assert(err == nil && len(sigs) == n, "C06.attestations.ok")
+	comms, accs = asked, askedAccs
 	vnd.Assert(len(d.calls) >= 1, "C06.attestations.domain-fetched")
 	for _, c := range d.calls {
 		vnd.Assert(c.typ == dtAttester && uint64(c.epoch) == uint64(slot)/c06SPE && !c.genesis, "C06.attestations.attester-domain-of-slot-epoch")
